@@ -279,6 +279,39 @@ func WatchFail(src string, limit time.Duration, onHang *Failure) (done func()) {
 	return func() { close(ch) }
 }
 
+// WatchProgress is WatchFail for runs that may legitimately take long: the violation is
+// reported only if the progress counter does not move for the whole of stall; a run that
+// keeps making progress is never interrupted.
+func WatchProgress(src string, progress func() int64, stall time.Duration, onStall *Failure) (done func()) {
+	ch := make(chan struct{})
+	go func() {
+		last, since := progress(), time.Now()
+		tick := time.NewTicker(2 * time.Second)
+		defer tick.Stop()
+		for {
+			select {
+			case <-ch:
+				return
+			case <-tick.C:
+				if now := progress(); now != last {
+					last, since = now, time.Now()
+				} else if time.Since(since) >= stall {
+					if out := os.Getenv("VERIF_OUT"); out != "" {
+						os.WriteFile(out+".hang.txt", []byte(src), 0o644) //nolint:errcheck
+						if onStall != nil {
+							b, _ := json.MarshalIndent(onStall, "", " ")
+							os.WriteFile(out+".replay.json", b, 0o644) //nolint:errcheck
+						}
+					}
+					fmt.Fprintf(os.Stderr, "WATCHDOG: no progress for %s:\n%s\n", stall, src)
+					os.Exit(3)
+				}
+			}
+		}
+	}()
+	return func() { close(ch) }
+}
+
 // MinimizeLines shrinks a source text line by line (delta debugging on
 // lines, then on single lines) while pred keeps holding.
 func MinimizeLines(src string, pred func(string) bool) string {
